@@ -213,7 +213,7 @@ func RunWorker(t *testing.T, scenarios map[string]*Scenario) {
 		os.Exit(2)
 	}
 	if in.MaxSteps == 0 {
-		in.MaxSteps = 30000
+		in.MaxSteps = 150000
 	}
 	simrt.RawLib = in.RawLib
 	if in.Procs > 0 {
